@@ -195,6 +195,14 @@ def run(prop, tier, replay=None):
 
 
 def finish(prop, tier, t0, cov, violations, known, broken):
+    if prop == "C20" and not broken:
+        # concurrent form of C20: tallies of gate-scheduled / free-running histories judged by StatsHist.tla
+        import c02check
+        ccov, cviol = c02check.run("C20", tier, None)
+        cov["concurrent_histories"] = ccov["traces_validated_against_impl"]
+        cov["traces_validated_against_impl"] += ccov["traces_validated_against_impl"]
+        for pred, detail, path in cviol:
+            violations.append(({"op": "concurrent", "pre": "", "field": pred, "want": "", "got": str(detail), "cfg": None}, path))
     for fd, d in known[:1] if known else []:
         pass
     printed = set()
